@@ -30,6 +30,15 @@ theorem Hint.subst_idSubst (ps : List TVar) (t : Hint) : t.subst (idSubst ps) = 
   | con o => rfl
   | app f a ihf iha => simp [Hint.subst, ihf, iha]
 
+/-- `_get_type_var_to_actual(params, params)`: a class subscribed with its own
+    type variables in their own order binds every parameter to itself -/
+theorem zip_map_tv_eq_idSubst (ps : List TVar) : ps.zip (ps.map Hint.tv) = idSubst ps := by
+  induction ps with
+  | nil => rfl
+  | cons p ps ih =>
+    unfold idSubst at ih ⊢
+    simp only [List.map_cons, List.zip_cons_cons, ih]
+
 theorem bindTo_fuel {H : Hierarchy} (hb : BasesLt H) :
     ∀ (F F' c : Nat) (σ : Subst) (d : Nat), c < F → c < F' → c < H.classes.length →
       bindTo H F c σ d = bindTo H F' c σ d := by
